@@ -68,3 +68,73 @@ w("C11", {"quick": c11([(0,0,0,0,0,False), (2,1,0,0,0,False), (2,1,1,0,0,True), 
  "thorough": c11([(nf,w_,k0,k1,mp,mid) for nf in (0,1,2) for (w_,k0,k1) in ((0,0,0),(1,0,0),(1,1,0),(1,2,0),(2,0,1),(2,2,1)) for mp in (0,1) for mid in (False,True) if not (nf == 0 and k0 == 1)], 1),
  "outside": ["more than 2 requests executing at the disconnect, more than 1 preemption", "write errors as the cause of the disconnect"],
  "assumptions": [SCHED]})
+
+# ---------------- C06 ----------------
+TT = [100, 102, 104, 108, 110, 112, 114, 116, 118, 120, 122, 124, 126]
+def c06(msizes, auths, frameN, frameMsize, unpackN):
+    F = KIT + ["c06"]
+    runs = []
+    for dotu in ("false", "true"):
+        runs.append({"harness": "vxH02Unpack", "args": [dotu, "0", str(unpackN), "0", "-1"], "files": ["api", "ref_wire", "c02"], "reach": ["ok", "err"], "conc_cap": 200,
+                     "bounds": f"Unpack on every byte string of length 0..{unpackN}, dotu={dotu} (shared with C02)"})
+    for t in TT:
+        for a in auths:
+            for m in msizes:
+                runs.append({"harness": "vxH06Step", "args": [str(t), a, str(m)], "files": F, "reach": ["done"],
+                             "bounds": f"one request of type {t} through Process() and the send step: fid/afid/newfid in {{valid file-or-dir fid with symbolic (type, opened, omode, diroffset), valid dir fid, absent, NOFID, auth fid}}, every scalar field full-width symbolic, names <= 1 byte, 0..2 walk names, implementation outcome ok/error/no answer/partial walk, 0- or 40-byte error text, msize {m}, AuthOps={a}"})
+    runs.append({"harness": "vxH06Frame", "args": [str(frameN), str(frameMsize)], "files": F, "reach": ["done"], "timeout_s": 2400,
+                 "bounds": f"running server, msize {frameMsize}: every byte string of length 0..{frameN} arrives as one segment on one connection; bystander and later connections must still be served"})
+    for dotu in ("false", "true"):
+        runs.append({"harness": "vxH15Window", "args": [dotu, "4", "8", "true"], "files": ["api", "ref_wire", "kit_srv", "kit_fs", "c15_dirread"], "reach": ["arbitrary-offset"],
+                     "bounds": f"Ufs directory Tread at an arbitrary 64-bit offset and 32-bit count on an arbitrary valid snapshot (<= 4 entries), dotu={dotu}"})
+        runs.append({"harness": "vxH14Read", "args": [dotu, "8", "10"], "files": ["api", "ref_wire", "kit_srv", "kit_fs", "c14_data"], "reach": [],
+                     "bounds": f"Ufs file Tread with symbolic 64-bit offset / 32-bit count, dotu={dotu}"})
+    return runs
+w("C06", {"quick": c06([24, 8216], ["true"], 14, 24, 24), "thorough": c06([24, 64, 8216], ["false", "true"], 20, 32, 32),
+ "outside": ["panics inside the Go runtime or the kernel; memory exhaustion other than C02's allocation bound", "frames longer than the stated lengths arriving at a live connection (the decoder itself is covered to 24/32 bytes by the Unpack runs, request execution by the one-step runs from arbitrary states)", "Ufs requests other than reads are covered for panics by the C14-C18 checks (every engine run carries the panic VCs)"],
+ "assumptions": [SCHED, "pre-state invariant of the one-step runs: auth fids carry QTAUTH and are created only by Tauth; other fids never carry it", "rewrite_os: native replays of the Ufs runs redirect os calls to the model file system"],
+ "rewrite_os": True})
+
+# ---------------- C13 ----------------
+def merge_frag(cfg, name):
+    p = os.path.join(os.path.dirname(os.path.abspath(__file__)), name)
+    if os.path.exists(p):
+        frag = json.load(open(p))
+        for k in ("quick", "thorough"):
+            cfg[k] = cfg[k] + frag.get(k, [])
+        for k in ("assumptions", "outside"):
+            cfg[k] = cfg.get(k, []) + frag.get(k, [])
+    return cfg
+def c13(combos):
+    F = KIT + ["c13_seg_srv"]
+    runs = []
+    for (msize, nreq, pay, ncuts) in combos:
+        what = "one byte at a time" if ncuts < 0 else f"every choice of {ncuts} cut position(s)"
+        runs.append({"harness": "vxH13Srv", "args": [str(msize), str(nreq), str(pay), str(ncuts)], "files": F, "preempt": 0, "free_switches": -1, "reach": ["done"], "timeout_s": 2400,
+                     "bounds": f"server receive loop, msize {msize} (8*msize receive buffer): stream of {nreq} requests (Twrite with {pay}-byte symbolic payload / Tstat / Tread, symbolic offsets) delivered under {what} vs. in one segment; deterministic goroutine schedule (segmentation is the subject)"})
+    return runs
+w("C13", merge_frag({"quick": c13([(32, 15, 3, 1), (32, 7, 3, 2), (32, 15, 3, -1), (64, 6, 9, 1)]),
+ "thorough": c13([(32, 30, 3, 1), (32, 15, 3, 2), (32, 5, 3, 3), (32, 30, 3, -1), (64, 30, 9, 1), (64, 12, 9, 2)]),
+ "outside": ["4 or more independent cuts on long streams; msize > 64", "interleavings of the worker goroutines (covered by C03/C08)"],
+ "assumptions": [SCHED]}, "C13_clnt.frag.json"))
+
+# ---------------- C19 ----------------
+def c19(P, clnt):
+    runs = []
+    UF = ["api", "ref_wire", "kit_srv", "kit_net", "kit_fs", "c19_ufs"]
+    for (dotu, batch) in (("false", 0), ("true", 1)):
+        runs.append({"harness": "vxH19Ufs", "args": [dotu, str(batch)], "files": UF, "preempt": P, "free_switches": 2, "race": True, "reach": ["done"], "timeout_s": 2400,
+                     "bounds": f"Ufs on the model file system through Srv.NewConn: two Twalks from one shared fid{' + a Tread on another fid' if batch else ''} outstanding together, dotu={dotu}; <= {P} preemptions, <= 2 non-default choices at blocking points"})
+    runs.append({"harness": "vxH19Conns", "args": [], "files": KIT + ["c19_conns"], "preempt": P, "free_switches": 1, "race": True, "reach": ["done"], "timeout_s": 2400,
+                 "bounds": f"a second connection is opened, attached and dropped while the first has requests on two different fids in flight; <= {P} preemptions"})
+    runs.append({"harness": "vxH03E2E", "args": ["2", "0", "0", "true"], "files": KIT + ["c03"], "preempt": P, "race": True, "reach": ["done"], "timeout_s": 2400,
+                 "bounds": f"server framework with a scripted implementation: 2 concurrent requests, every completion order, <= {P} preemptions (workload of C03)"})
+    runs.append({"harness": "vxH07", "args": ["0", "0", "0", "false", "false"], "files": KIT + ["c07"], "preempt": P, "race": True, "reach": [], "timeout_s": 2400,
+                 "bounds": f"a Twalk and its Tflush interleaved in every way, <= {P} preemptions (workload of C07)"})
+    runs += clnt
+    return runs
+CL9 = ["api", "ref_wire", "kit_net", "kit_clnt", "c09"]
+w("C19", {"quick": c19(1, []), "thorough": c19(2, []), "witnesses": -1,
+ "outside": ["races that need more than 2 preemptions or more than 3-4 concurrent requests", "races between two instructions of harness-owned state (exempt by construction)", "workloads the statement excludes: two non-walk requests on the same fid at once, Tversion in mid-session, dropping a connection with requests outstanding"],
+ "assumptions": [SCHED, "a race is two conflicting accesses by library (non-harness) code that are unordered by the Go memory model's happens-before edges (go, channel send/receive/close, Mutex, atomics) in an explored schedule; RACE findings are confirmed natively by go test -race on the same workload"],
+ "rewrite_os": True})
